@@ -222,8 +222,15 @@ int s_advance_to_closing_tag(
             if (!aws_byte_cursor_find_exact(&parser->doc, &to_find_open, &open_find_result)) {
                 if (open_find_result.ptr < close_find_result.ptr) {
                     size_t skip_len = open_find_result.ptr - parser->doc.ptr;
+                    /* "<name" only opens a nested element of the same name if the name ends there; otherwise
+                     * it is a longer name that merely starts with ours. The closing tag found above lies
+                     * behind this match, so the byte after the match is inside the document. */
+                    uint8_t name_end = open_find_result.ptr[to_find_open.len];
                     aws_byte_cursor_advance(&parser->doc, skip_len + 1);
-                    depth_count++;
+                    if (name_end == '>' || name_end == ' ' || name_end == '/' || name_end == '\t' ||
+                        name_end == '\n' || name_end == '\r') {
+                        depth_count++;
+                    }
                     continue;
                 }
             }
